@@ -19,7 +19,9 @@ Written here: `try_interval_replication` / `get_replicate_candidates` (cmd.rs), 
 replication part, `handle_query(GetReplicatedRecord)` and `fetch_replication_keys_without_wait`.
 
 Peers are naturals (`< n`: nodes; others: strangers that only occur in routing tables and as forged
-senders). Key number `3*id + space` as in the validation model. Topology and metric are static data (`World`).
+senders). A `Replicate` request carries two identities: the peer it was *sent by* (`src`, what libp2p authenticates) and
+the `holder` *field* of the message; `forge` sends lists whose field names the sender, `spoof` lists whose field names
+somebody else. Key number `3*id + space` as in the validation model. Topology and metric are static data (`World`).
 Time per node is the fetcher's `now` (whole seconds, half-tick comparisons as in the fetcher model).
 -/
 namespace SafeNet.Replication
@@ -192,6 +194,8 @@ inductive Op
   | tick (i d : Nat)
   | interval (i : Nat)
   | forge (src dst : Nat) (keys : List (Nat × Nat))
+  /-- `src` sends a list whose `holder` field claims another peer -/
+  | spoof (src holder dst : Nat) (keys : List (Nat × Nat))
   | deliver (m : Nat) (choice : List Entry)
   | drop (m : Nat)
   | dup (m : Nat)
@@ -220,12 +224,27 @@ def nodeRsp (w : World) (i : Nat) (nd : NodeSt) (key : Nat) (c : Content) (choic
     let (nd, o) := putLocal w i nd k c' choice
     (nd, o, [(k, c')])
 
-/-- `Cmd::Replicate{holder, keys}` arrives at node `i` -/
-def deliverRep (w : World) (s : Sys) (i holder : Nat) (keys : List (Nat × Nat)) (choice : List Entry) : Sys × Out :=
-  let (nd, o) := nodeRep w i (s.node i) holder keys choice
-  let s := s.setNode i nd
-  let (s, ids) := s.send (fetchMsgs i o.ret)
-  (s, { sched := o.ret, failed := o.failed, illegal := o.illegal, newMsgs := ids })
+/-- the guard of the `Cmd::Replicate` arm of `handle_req_resp_events`, as read from the source: with `chk` the list is
+handed to `add_keys_to_replication_fetcher` only `if holder.as_peer_id() == Some(peer)` (`eq`; `!=` otherwise), `peer`
+being the authenticated sender of the request; without it the call is unconditional -/
+def armActsWith (chk eq : Bool) (src holder : Nat) : Bool := !chk || (if eq then holder == src else holder != src)
+
+def armActs (src holder : Nat) : Bool := armActsWith replicateChecksSender replicateSenderMustEqual src holder
+
+/-- `Cmd::Replicate{holder, keys}` arrives at node `i`; `acts` = the arm hands it on (the `Ok` response is sent either way
+and is not modelled) -/
+def deliverRepWith (acts : Bool) (w : World) (s : Sys) (i holder : Nat) (keys : List (Nat × Nat)) (choice : List Entry) :
+    Sys × Out :=
+  if !acts then (s, { illegal := !choice.isEmpty })
+  else
+    let (nd, o) := nodeRep w i (s.node i) holder keys choice
+    let s := s.setNode i nd
+    let (s, ids) := s.send (fetchMsgs i o.ret)
+    (s, { sched := o.ret, failed := o.failed, illegal := o.illegal, newMsgs := ids })
+
+/-- `Cmd::Replicate{holder, keys}` sent by `src` arrives at node `i` -/
+def deliverRep (w : World) (s : Sys) (src i holder : Nat) (keys : List (Nat × Nat)) (choice : List Entry) : Sys × Out :=
+  deliverRepWith (armActs src holder) w s i holder keys choice
 
 /-- `GetReplicatedRecord{key}` arrives at holder `h`, asked by `src` -/
 def deliverGet (s : Sys) (src h key : Nat) : Sys × Out :=
@@ -268,6 +287,10 @@ def step (w : World) (s : Sys) : Op → Sys × Out
     if !isNode w dst then (s, { bad := true }) else
     let (s, ids) := s.send [.rep src dst src keys]
     (s, { newMsgs := ids })
+  | .spoof src holder dst keys =>
+    if !isNode w dst then (s, { bad := true }) else
+    let (s, ids) := s.send [.rep src dst holder keys]
+    (s, { newMsgs := ids })
   | .dup m =>
     match s.msg m with
     | some (.rep a b h ks) =>
@@ -282,7 +305,7 @@ def step (w : World) (s : Sys) : Op → Sys × Out
     | none => (s, { bad := true })
   | .deliver m choice =>
     match s.msg m with
-    | some (.rep _ dst holder keys) => deliverRep w (s.unwire m) dst holder keys choice
+    | some (.rep src dst holder keys) => deliverRep w (s.unwire m) src dst holder keys choice
     | some (.get src dst key) =>
       if isNode w dst then deliverGet (s.unwire m) src dst key else (s, { bad := true })
     | some (.rsp _ dst key c) => deliverRsp w (s.unwire m) dst key c choice
